@@ -22,7 +22,7 @@ def run(ctx):
         raise Inconclusive("expected 54 cases, got %d" % len(cases))
     scen = []
     rng = random.Random(ctx.seed * 15485863 + 2)
-    for rep in range(1 if quick else 4):
+    for rep in range(1 if quick else 9):
       for i, c in enumerate(cases):
         for j, chunk in enumerate(["whole", "random", "byte"]):
             bits = "sample"
@@ -36,9 +36,9 @@ def run(ctx):
     for k, cut in enumerate(cutpos):
         scen.append({"id": "split%d" % k, "kind": "case", "cfg": "right", "responder": "genuine", "mod": "none", "bits": "sample", "nsample": 1,
                      "chunk": "split", "cut": cut, "legacy": k % 3 == 0, "seed": ctx.seed * 10000 + 7000 + k})
-    for k in range(2 if quick else 30):
+    for k in range(2 if quick else 100):
         scen.append({"id": "fresh%d" % k, "kind": "fresh", "n": 32 if quick else 64, "seed": k})
-    for k in range(3 if quick else 60):
+    for k in range(3 if quick else 300):
         scen.append({"id": "freshfault%d" % k, "kind": "freshfault", "n": 18 if quick else 45, "seed": ctx.seed * 100 + k})
     binary = ctx.go_build("./cmd/c02")
     traces = ctx.exec_scenarios(binary, scen, "c02", shards=14, timeout=3000)
